@@ -102,6 +102,9 @@ func jobsFor(prop, tier string) []Job {
 		}
 		js = append(js, mk("crash-w1-2crashes", params("W", 1, "MEMTHR", 60), 2, false, false, 0),
 			mk("crash-w3-straddle", params("W", 3, "MEMTHR", 44), 1, tears, false, 0))
+		if !tears { // (a 64 KiB unsynced tail would be cut at 64 Ki lengths)
+			js = append(js, mk("crash-w6-large-value", params("W", 6, "MEMTHR", 100000, "POSTN", 0), 1, false, false, 0))
+		}
 		if thorough {
 			js = append(js, mk("crash-w2", params("W", 2), 1, tears, false, 0),
 				mk("crash-w0-2crashes", params("W", 0), 2, false, false, 0),
@@ -115,6 +118,11 @@ func jobsFor(prop, tier string) []Job {
 			j.ZoneOnly = true
 			if !tears || thorough {
 				js = append(js, j)
+			}
+			j5 := mk("crash-w5-close-with-pending-flushes-multikey", params("W", 5, "DRAIN", 0, "IB", 4, "FINALDRAIN", 0, "STALL", 1, "ZONE", 1, "POSTN", 1), 1, tears, false, 1)
+			j5.ZoneOnly = true
+			if prop == "C04" || thorough {
+				js = append(js, j5)
 			}
 		}
 		if tears && !thorough {
@@ -139,6 +147,15 @@ func jobsFor(prop, tier string) []Job {
 			mk("txn-2-rw-del", params("NT", 2, "LIB0", 3, "LIB", 4, "K0", 2, "IBMAX", 0, "BLKMAX", 0, "REOPEN", 0)),
 			mk("txn-1-misuse", params("NT", 1, "LIB0", 7, "LIB", 5, "K0", 3, "UPDATEERR", 1)),
 			mk("txn-1-updateerr", params("NT", 1, "LIB0", 2, "LIB", 3, "K0", 1, "UPDATEERR", 1, "IBMAX", 0, "BLKMAX", 0)),
+			func() Job {
+				j := mk("c08-close-with-backlog", params("N", 3))
+				j.Fn = "VH_C08_CloseBacklog"
+				j.Bounds = map[string]any{"commits": 3, "flusher": "stalled during the workload, Close finds 3 memtables queued"}
+				return j
+			}(),
+			mk("txn-2-readonlyrw-vs-writer", params("NT", 2, "S0", 9, "S1", 3, "K0", 0, "MEMFIX", 4096, "REOPEN", 0)),
+			mk("txn-2-rmw-writer-2extracommits", params("NT", 2, "S0", 4, "S1", 3, "K0", 0, "EXTRA", 2, "MEMFIX", 4096, "REOPEN", 0)),
+			mk("txn-2-rmw-vs-use-after-commit", params("NT", 2, "S0", 4, "S1", 11, "K0", 0, "MEMFIX", 4096, "REOPEN", 0)),
 			mk("txn-2-nodrain-queue", params("NT", 2, "LIB0", 3, "LIB", 2, "K0", 3, "DRAIN", 0, "IBMIN", 2, "IBMAX", 2, "BLKMAX", 0, "REOPEN", 0)),
 			mk("txn-2-extracommit", params("NT", 2, "LIB0", 3, "LIB", 2, "K0", 0, "EXTRA", 1, "MEMFIX", 4096, "REOPEN", 0)),
 			mk("txn-2-reader-writer-extracommit-gc", params("NT", 2, "LIBFIX", 23, "K0", 0, "EXTRA", 1, "IBMAX", 0, "BLKMAX", 0, "REOPEN", 0)),
@@ -207,6 +224,11 @@ func jobsFor(prop, tier string) []Job {
 			mk("conc-1w2c-eager", params("WRITERS", 1, "COMMITS", 2, "IBMAX", 2), 0, true),
 			mk("conc-1w2c-afterack-dev1", params("WRITERS", 1, "COMMITS", 2, "IBMAX", 0, "AFTERACK", 1), 1, false),
 			func() Job {
+				j := mk("close-with-backlog-dev1", params("N", 3), 1, false)
+				j.Fn = "VH_C08_CloseBacklog"
+				return j
+			}(),
+			func() Job {
 				j := mk("conc3-2writers-prebegun-dev1", params("MEMTHR", 20, "IBMAX", 1), 1, false)
 				j.Fn = "VH_CONC3"
 				return j
@@ -221,6 +243,9 @@ func jobsFor(prop, tier string) []Job {
 			c4.Fn = "VH_CONC4"
 			c4.OnlyAsserts = []string{"C05."}
 			js = append(js, c4)
+			c5 := mk("conc5-two-readers-on-sstables-dev1", params(), 1, false)
+			c5.Fn = "VH_CONC5"
+			js = append(js, c5)
 			// two committers whose commits rotate the memtable
 			cr := mk("conc2-rmw-rotating-dev1", params("MEMTHR", 20, "IBMAX", 1), 1, false)
 			cr.Fn = "VH_CONC2"
@@ -255,6 +280,7 @@ func jobsFor(prop, tier string) []Job {
 			js = append(js,
 				mk("c09-2r-2x1-l1merge", params("R", 2, "T", 2, "E", 1, "L0T", 1, "RATIO", 2, "WM", 0)),
 				mk("c09-2r-2x1-cascade-recover", params("R", 2, "T", 2, "E", 1, "L0T", 1, "RATIO", 1, "RECOVER", 1, "WM", 0, "MAXTS", 3)),
+				mk("c09-1r-1+1+2-l0t2", params("R", 1, "T", 3, "ES", 112, "L0T", 2, "RATIO", 2, "WM", 0)),
 				mk("c09-1r-2x2", params("R", 1, "T", 2, "E", 2, "L0T", 1, "RATIO", 2)),
 				mk("c09-1r-3x1", params("R", 1, "T", 3, "E", 1, "L0T", 2, "RATIO", 2)),
 				mk("c09-1r-2+1-k2", params("R", 1, "T", 2, "ES", 21, "L0T", 1, "RATIO", 2, "KL2", 2, "QKL", 2)),
@@ -277,6 +303,12 @@ func jobsFor(prop, tier string) []Job {
 			mk("c10-3x1-recover", params("T", 3, "E", 1, "RECOVER", 1, "KL2", 1)),
 			mk("c10-2x1-ts99", params("T", 2, "E", 1, "MAXTS", 99)),
 			mk("c10-2x2-levels", params("T", 2, "E", 2, "LEVELS", 2)),
+			func() Job {
+				j := mk("c10-recovered-realfilter", params("T", 2))
+				j.Fn, j.FilterSummary, j.OnlyAsserts = "VH_C16_Recover", false, []string{"C10."}
+				j.Bounds = map[string]any{"tables": 2, "keys": "concrete; the real bloom filter (stateful hashers) is probed with a rejected key before every stored key", "handles": "rebuilt by recover()"}
+				return j
+			}(),
 		}
 		if thorough {
 			js = append(js,
@@ -355,6 +387,12 @@ func jobsFor(prop, tier string) []Job {
 			mk("c16-n4-lens", params("N", 4, "KL", 0, "STEP", 3)),
 			mk("c16-n2-decode", params("N", 2, "KL", 5, "STEP", 4, "DECODE", 1)),
 			mk("c16-n100-sym2", params("N", 100, "KL", 7, "STEP", 1, "SYM", 2)),
+			func() Job {
+				j := mk("c16-recovered-filters", params("T", 2))
+				j.Pkg, j.Fn, j.SymIndex, j.OnlyAsserts = "", "VH_C16_Recover", false, []string{"C16."}
+				j.Bounds = map[string]any{"tables": 2, "keys": "concrete (apple, apple@x, b@d, c): the real filter and murmur3 run", "tombstones_values_versions": "symbolic", "handles": "rebuilt from the files by recover()"}
+				return j
+			}(),
 			mk("c16-n2-nonmember", params("N", 2, "KL", 2, "STEP", 3, "NONMEMBER", 1)),
 		}
 		if thorough {
